@@ -27,7 +27,8 @@ class Virtual(BaseHandler):
             self.statresult = None
             try:
                 self.statresult = self.vfs.stat(self.selectorreal)
-            except OSError:
+            except (OSError, ValueError):
+                # ValueError: selector with an embedded NUL byte
                 pass
         else:
             # Best guess.
